@@ -21,6 +21,9 @@ CHECKS = {
     "C09": ("E1", "bounded-exhaustive enumeration of the complete finite unit-pair space on the real code vs physical reference factors",
             "Every ordered unit pair of all six families and every constructor unit triple is executed on the implementation and compared with SI factors, linearity, identity and round-trip laws; the pair space is finite and covered completely.",
             "Trusted: reference factors in harness/src/refmodel/units.rs; magnitudes outside the alphabet follow from linearity of constant-factor tables.", "§4.9"),
+    "C10": ("E1", "bounded-exhaustive enumeration of tie-free multigraphs x every limit value 0..N+3 of every limit kind on the real search, work observed through a recording frontier model",
+            "For every tie-free network the unlimited search is compared with the same search under every iteration / solution-size / combined limit value from 0 to beyond what it needed, generous runtime budgets (frequency 1/2/5) and exhausted ones (2 ms limit, 3 ms sleep inside the k-th traversal): observed expansions <= limit, labelled vertices <= limit + max degree, terminated error names the limit, any returned result identical to the unlimited one, success monotone, stop at the next scheduled check.",
+            "Trusted: recording frontier/traversal wrappers (harness). Expansions of vertices without incident edges are invisible (lower bound, cannot false-alarm). KSP: result-level clauses only.", "§4.10"),
     "C11": ("E2+E1", "explicit-state breadth-first search over insert histories applied to live CompactOrderedHashMap objects vs Vec<(K,V)> reference; bounded-exhaustive feature-set enumeration for the state model",
             "All ordered key lists over 7 (quick) / 8 (thorough) keys are reached by BFS from the empty map (13 700 / 109 601 states), every insert/overwrite transition is executed on a live clone and the whole public API compared with the reference; constructors new/collect/from for every distinct-key list and every duplicate-key list, followed by 1-2 further inserts; state models of 0..8(9) features over 16 feature kinds through new/extend/TryFrom/SearchApp::build_search_instance with slot-bijection, initial-state and get/set/add round-trip clauses.",
             "Trusted: Vec<(K,V)> reference; dedup on key order justified by parametricity in V (values are still compared on the concrete path). IndexedEntry observed through Debug.", "§4.11"),
